@@ -150,6 +150,8 @@ where
                     break;
                 }
                 MapValueState::Deleted => {
+                    #[cfg(agdb_verif)]
+                    crate::verif::hit("multi_map.insert_or_replace.over_deleted");
                     if free_pos.is_none() {
                         free_pos = Some(pos);
                     }
@@ -373,6 +375,8 @@ where
         current_capacity: u64,
         new_capacity: u64,
     ) -> Result<(), DbError> {
+        #[cfg(agdb_verif)]
+        crate::verif::hit("multi_map.grow");
         self.data.resize(storage, new_capacity)?;
         self.rehash_values(storage, current_capacity, new_capacity)
     }
@@ -510,6 +514,8 @@ where
         current_capacity: u64,
         new_capacity: u64,
     ) -> Result<(), DbError> {
+        #[cfg(agdb_verif)]
+        crate::verif::hit("multi_map.shrink");
         self.rehash_values(storage, current_capacity, new_capacity)?;
         self.data.resize(storage, new_capacity)
     }
